@@ -161,7 +161,7 @@ func runC03(c *Ctx) {
 			if forbidden[call.Key] {
 				hits = append(hits, core.FuncKey(fn)+" -> "+call.Key)
 			}
-			if callee := call.Common.StaticCallee(); callee != nil && core.InModule(callee) && callee.Blocks != nil {
+			if callee := core.Callee(call.Common); callee != nil && core.InModule(callee) && callee.Blocks != nil {
 				visit(callee, depth+1)
 			}
 		}
